@@ -75,6 +75,7 @@ package types
 
 //@ func (List).Empty
 //@   safety[C02]
+//@   ensures[C16] result <==> (len(l.bytes) == 0 || ite(l.table.big, len(l.table.table) / 4, len(l.table.table) / 2) == 0)
 //@   noalloc[C17]
 
 //@ func (List).Raw
@@ -128,6 +129,7 @@ package types
 
 //@ func (Message).Empty
 //@   safety[C02]
+//@   ensures[C16] result <==> (len(m.bytes) == 0 || ite(m.table.big, len(m.table.table) / 6, len(m.table.table) / 3) == 0)
 //@   noalloc[C17]
 
 //@ func (Message).Len
